@@ -50,6 +50,11 @@ import weakref
 from traits.api import HasTraits, Int, Str, List, Any, push_exception_handler
 
 try:
+    from traits.api import ComparisonMode
+except ImportError:  # pragma: no cover
+    from traits.constants import ComparisonMode
+
+try:
     from traits.observation.api import push_exception_handler as obs_push_exception_handler
 except Exception:  # pragma: no cover - older layouts
     obs_push_exception_handler = None
@@ -57,7 +62,10 @@ except Exception:  # pragma: no cover - older layouts
 META = {
     "level": "exploration",
     "rule": ("cases = random histories (24 ops quick / 28 thorough) over 2-3 objects with two Int, two "
-             "Str and two List(Int) traits; ops = sync_trait mutual/one-way (same name or alias, "
+             "Str and two List(Int) traits, the objects drawn from eight class flavours (plain "
+             "lists, `_<name>_default` methods on both / one list, defaults supplied by a subclass "
+             "for inherited lists, explicit default values, comparison_mode identity / none / "
+             "equality; defaults left unmaterialised in half of the objects); ops = sync_trait mutual/one-way (same name or alias, "
              "several partners, occasional self-alias), remove=True (mutual or one direction, also "
              "of links that do not exist), scalar and list assignment (also of the value already "
              "held), every in-place list mutator incl. +=/*= through the attribute, reversed and "
@@ -77,7 +85,20 @@ META = {
                   "three_object_propagations": 2300, "alias_propagations": 5400,
                   "recorder_calls_checked": 110000, "noop_steps": 30000,
                   "extended_slice_mutations": 600, "links_made": 24000,
-                  "unlinks_effective": 6500},
+                  "unlinks_effective": 6500,
+                  "list_mutations_propagated_from_dyn": 4500,
+                  "list_mutations_propagated_into_dyn": 5000,
+                  "list_mutations_dyn_partner_only": 3000, "list_mutations_dyn_both_sides": 2000,
+                  "list_mutations_propagated_from_sub": 1800,
+                  "list_mutations_propagated_into_sub": 2000,
+                  "list_mutations_propagated_from_static": 1300,
+                  "list_mutations_propagated_into_static": 1500,
+                  "list_mutations_propagated_from_always": 1500,
+                  "list_mutations_propagated_into_always": 1700,
+                  "always_notifying_assignments_propagated": 1000,
+                  "equal_value_assignments_forwarded": 300,
+                  "objects_with_unmaterialised_defaults": 9000,
+                  "links_to_recycled_address": 800},
         "thorough": {"evaluations": 1900000, "propagations_checked": 400000,
                      "mutual_list_mutations": 150000, "oneway_assignments": 34000,
                      "reverse_direction_checks": 88000, "ops_after_unlink": 100000,
@@ -85,7 +106,21 @@ META = {
                      "three_object_propagations": 37000, "alias_propagations": 84000,
                      "recorder_calls_checked": 1600000, "noop_steps": 450000,
                      "extended_slice_mutations": 9000, "links_made": 330000,
-                     "unlinks_effective": 96000},
+                     "unlinks_effective": 96000,
+                     "list_mutations_propagated_from_dyn": 56000,
+                     "list_mutations_propagated_into_dyn": 62000,
+                     "list_mutations_dyn_partner_only": 37000,
+                     "list_mutations_dyn_both_sides": 25000,
+                     "list_mutations_propagated_from_sub": 22000,
+                     "list_mutations_propagated_into_sub": 25000,
+                     "list_mutations_propagated_from_static": 16000,
+                     "list_mutations_propagated_into_static": 18000,
+                     "list_mutations_propagated_from_always": 18000,
+                     "list_mutations_propagated_into_always": 21000,
+                     "always_notifying_assignments_propagated": 12000,
+                     "equal_value_assignments_forwarded": 4000,
+                     "objects_with_unmaterialised_defaults": 110000,
+                     "links_to_recycled_address": 10000},
     },
     "assumptions": [
         "the model (directed link graph + value semantics of assignment, slice semantics of a "
@@ -109,15 +144,87 @@ SLOTS = ("A", "B", "C")
 STRS = ("", "a", "b", "ab")
 
 
-class Node(HasTraits):
+class Base(HasTraits):
     uid = Int
     v = Int
     w = Int
     s = Str
     t = Str
+    me = Any
+
+
+class Node(Base):
     xs = List(Int)
     ys = List(Int)
-    me = Any
+
+
+class NodeDyn(Base):
+    """Both lists get their default from a `_<name>_default` method of the defining class."""
+    xs = List(Int)
+    ys = List(Int)
+
+    def _xs_default(self):
+        return [1, 2]
+
+    def _ys_default(self):
+        return [3]
+
+
+class NodeDynOne(Base):
+    """Only `xs` has a dynamic default method."""
+    xs = List(Int)
+    ys = List(Int)
+
+    def _xs_default(self):
+        return [4, 0, 4]
+
+
+class NodeSub(Node):
+    """Dynamic defaults supplied by a subclass for inherited list traits."""
+
+    def _xs_default(self):
+        return [2]
+
+    def _ys_default(self):
+        return [5, 5]
+
+
+class NodeSubOne(Node):
+    def _ys_default(self):
+        return [0, 1]
+
+
+class NodeStatic(Base):
+    """Explicit default values in the declaration."""
+    xs = List(Int, [1, 2, 3])
+    ys = List(Int, value=[0])
+
+
+class NodeCmp(Base):
+    """Every assignment notifies (identity / none comparison)."""
+    xs = List(Int, comparison_mode=ComparisonMode.identity)
+    ys = List(Int, comparison_mode=ComparisonMode.none)
+
+
+class NodeCmpOne(Base):
+    xs = List(Int, comparison_mode=ComparisonMode.equality)
+    ys = List(Int, [2, 2], comparison_mode=ComparisonMode.identity)
+
+
+# flavour -> (class, list defaults, names with a dynamic default method, names whose every
+#             assignment notifies, tag)
+FLAVOURS = {
+    "plain": (Node, {"xs": [], "ys": []}, (), (), "plain"),
+    "dyn": (NodeDyn, {"xs": [1, 2], "ys": [3]}, ("xs", "ys"), (), "dyn"),
+    "dyn1": (NodeDynOne, {"xs": [4, 0, 4], "ys": []}, ("xs",), (), "dyn"),
+    "sub": (NodeSub, {"xs": [2], "ys": [5, 5]}, ("xs", "ys"), (), "sub"),
+    "sub1": (NodeSubOne, {"xs": [], "ys": [0, 1]}, ("ys",), (), "sub"),
+    "static": (NodeStatic, {"xs": [1, 2, 3], "ys": [0]}, (), (), "static"),
+    "cmp": (NodeCmp, {"xs": [], "ys": []}, (), ("xs", "ys"), "cmp"),
+    "cmp1": (NodeCmpOne, {"xs": [], "ys": [2, 2]}, (), ("ys",), "cmp"),
+}
+FLAVOUR_WEIGHTS = (("plain", 26), ("dyn", 14), ("dyn1", 10), ("sub", 12), ("sub1", 8),
+                   ("static", 10), ("cmp", 12), ("cmp1", 8))
 
 
 # ---- process-wide observation points (installed once per child) -----------------
@@ -134,7 +241,7 @@ def _legacy_exc(obj, trait_name, old, new):
     e = sys.exc_info()[1]
     uid = None
     try:
-        uid = obj.__dict__.get("uid") if isinstance(obj, Node) else None
+        uid = obj.__dict__.get("uid") if isinstance(obj, Base) else None
     except Exception:
         pass
     CHAN.append((uid, _base(trait_name), type(e).__name__))
@@ -146,7 +253,7 @@ def _obs_exc(event):
     name = getattr(event, "name", None)
     try:
         obj = getattr(event, "object", None)
-        uid = obj.__dict__.get("uid") if isinstance(obj, Node) else None
+        uid = obj.__dict__.get("uid") if isinstance(obj, Base) else None
     except Exception:
         pass
     CHAN.append((uid, _base(name), type(e).__name__))
@@ -360,6 +467,10 @@ class World:
         self.lost_out = {}     # node -> 'removed' | 'gc' (how the last outgoing link went away)
         self.sticky_gc = set()  # nodes that were ever orphaned by collection of a partner
         self.relinkable = set()  # nodes that lost every link at some point (for the relink counter)
+        self.flavour = {}      # serial -> flavour name
+        self.pending = []      # scripted follow-up operations (partner replacement)
+        self.dead_addresses = set()   # only to COUNT address recycling, never used in a key
+        self.recycled = set()  # serials of objects living where a collected partner lived
         self.next_uid = 1
         self.trace = []
 
@@ -400,6 +511,65 @@ class World:
 
     def upstream(self, n):
         return {m for m in self.live_nodes() if m != n and n in self.reach(m)}
+
+    def mode(self, n):
+        """'always' when every assignment to the node notifies (comparison_mode identity or
+        none: a trait list is copied on assignment, so the new value is never the old object),
+        'eq' when only a different value does."""
+        return "always" if n[1] in FLAVOURS[self.flavour[n[0]]][3] else "eq"
+
+    def tags(self, nodes):
+        out = set()
+        for m in nodes:
+            if GROUP[m[1]] != "list":
+                continue
+            f = FLAVOURS[self.flavour[m[0]]]
+            if m[1] in f[2]:
+                out.add("dyn")
+                if f[4] == "sub":
+                    out.add("sub")
+            if f[4] == "static":
+                out.add("static")
+            if m[1] in f[3]:
+                out.add("always")
+        return out
+
+    def fires(self, m, old, value):
+        return self.mode(m) == "always" or old != value
+
+    def model_assign(self, exp, n, value, calls):
+        """Assignment semantics on the expectation `exp` (in place): the value travels along
+        the links, through every node whose own assignment notifies, and never into a node
+        that is itself forwarding.  Returns the set of nodes that notified."""
+        is_list = GROUP[n[1]] == "list"
+        fired = set()
+        old = exp[n]
+        exp[n] = list(value) if is_list else value
+        if not self.fires(n, old, value):
+            return fired
+        calls[n] = calls.get(n, 0) + 1
+        fired.add(n)
+        locked = set()
+
+        def prop(x):
+            locked.add(x)
+            for t in sorted(self.out(x)):
+                if t in locked:
+                    continue
+                o = exp[t]
+                exp[t] = list(value) if is_list else value
+                if self.fires(t, o, value):
+                    calls[t] = calls.get(t, 0) + 1
+                    fired.add(t)
+                    prop(t)
+            locked.discard(x)
+        prop(n)
+        return fired
+
+    def model_assign_calls(self, exp, n, value):
+        calls = {}
+        self.model_assign(exp, n, value, calls)
+        return calls
 
     def context(self, n):
         if self.outdeg(n):
@@ -476,7 +646,9 @@ class World:
 
         src: operated node or None; raised: (class, text) or None; exp: expected value
         per live node; adopt: nodes whose value is unspecified; may_call: nodes whose
-        recorder may have been called (at most once)."""
+        recorder may have been called (at most once), or {node: allowed calls}."""
+        if not isinstance(may_call, dict):
+            may_call = {m: 1 for m in may_call}
         ctx = self.ctx
         ctx.ev()
         if STATE["clamped"] or len(LOG) > BUDGET:
@@ -585,7 +757,7 @@ class World:
         for m, c in sorted(calls.items()):
             if m[0] not in self.slot_of:
                 continue
-            if c > 1:
+            if c > max(may_call.get(m, 0), 1):
                 self.fail("multipath/list-mutation/double-notified" if multi else "ping-pong/" + opclass,
                           "recorder of %s called %d times for one operation" % (self.label(m), c),
                           {"calls": sorted((self.label(k), v) for k, v in calls.items() if k[0] in self.slot_of)})
@@ -606,12 +778,17 @@ class World:
 
     # -- operations --------------------------------------------------------------------
     def do_fresh(self, op):
-        _, slot, selfref, init = op
+        _, slot, selfref, init, flavour, lazy = op
         uid = self.next_uid
         self.next_uid += 1
-        o = Node(uid=uid, **{k: (list(v) if isinstance(v, list) else v) for k, v in init.items()})
+        cls, defaults = FLAVOURS[flavour][0], FLAVOURS[flavour][1]
+        self.flavour[uid] = flavour
+        o = cls(uid=uid, **{k: (list(v) if isinstance(v, list) else v) for k, v in init.items()})
         if selfref:
             o.me = o           # cyclic garbage: only gc.collect() can reclaim it
+        if id(o) in self.dead_addresses:
+            self.recycled.add(uid)
+            self.ctx.count("objects_at_recycled_address")
         rec = make_recorder(uid)
         for name in ALL_NAMES:
             o.on_trait_change(rec, name)
@@ -622,8 +799,17 @@ class World:
         self.slot_of[uid] = slot
         self.refs[uid] = weakref.ref(o)
         for name in ALL_NAMES:
-            self.val[(uid, name)] = self.actual((uid, name))
-        del LOG[:]
+            if lazy and name in defaults and name not in init:
+                # the default is not materialised here: the first reader is sync_trait
+                # or the first operation of the history
+                self.val[(uid, name)] = list(defaults[name])
+            else:
+                self.val[(uid, name)] = self.actual((uid, name))
+        if LOG:
+            self.fail("fresh/default-notified", "materialising defaults notified %r" % (LOG[:4],))
+        self.ctx.count("objects_" + FLAVOURS[flavour][4])
+        if lazy:
+            self.ctx.count("objects_with_unmaterialised_defaults")
 
     def do_set(self, op):
         _, slot, name, value = op
@@ -640,20 +826,12 @@ class World:
         except Exception as e:  # noqa: BLE001
             raised = (type(e), str(e)[:200])
         exp = dict(self.val)
-        changed = set()
-        if old != value:
-            exp[n] = value
-            changed.add(n)
-            stack = [n]
-            while stack:
-                x = stack.pop()
-                for t in self.out(x):
-                    if exp[t] != value:
-                        exp[t] = list(value) if is_list else value
-                        changed.add(t)
-                        stack.append(t)
-        self.judge(opclass, n, raised, None, exp, set(), changed | {n}, reach, src_ctx)
-        self.account(opclass, n, src_ctx, reach, changed, old != value, raised)
+        calls = {}
+        fired = self.model_assign(exp, n, value, calls)
+        changed = {m for m in exp if exp[m] != self.val[m]}
+        calls.setdefault(n, 1)
+        self.judge(opclass, n, raised, None, exp, set(), calls, reach, src_ctx)
+        self.account(opclass, n, src_ctx, reach, changed, old != value, raised, fired)
 
     def do_mut(self, op):
         _, slot, name, mop = op
@@ -693,6 +871,16 @@ class World:
                     adopt.add(m)
             if new != old:
                 changed.add(n)
+            may_call = {m: 1 for m in may_call}
+            if mop[0] in ("iadd_attr", "imul_attr") and self.mode(n) == "always":
+                # `obj.xs += items` is an in-place mutation followed by an assignment of the
+                # (copied) list, and on this trait every assignment notifies
+                if adopt:
+                    adopt |= reach - scc
+                    may_call = {m: 2 for m in may_call}
+                else:
+                    for m, c in self.model_assign_calls(exp, n, new).items():
+                        may_call[m] = may_call.get(m, 0) + c
         self.judge(opclass, n, raised, expected_exc, exp, adopt, may_call, reach, src_ctx)
         self.account(opclass, n, src_ctx, reach, changed, new != old, raised)
 
@@ -712,13 +900,25 @@ class World:
             oa.sync_trait(na, ob, **kw)
         except Exception as e:  # noqa: BLE001
             raised = (type(e), str(e)[:200])
-        self.edges.add((a, b))
-        if mutual:
+        # how often each node may notify: replay the two equalising assignments on a copy
+        sim = dict(self.val)
+        calls = {}
+        if (a, b) not in self.edges:
+            self.edges.add((a, b))
+            self.model_assign(sim, b, sim[a], calls)
+        if mutual and (b, a) not in self.edges:
             self.edges.add((b, a))
+            self.model_assign(sim, a, sim[b], calls)
         affected = {a, b} | self.reach(a) | self.reach(b)
         opclass = "link" if mutual else "link-oneway"
-        self.judge(opclass, None, raised, None, dict(self.val), affected, affected, affected,
+        self.judge(opclass, None, raised, None, dict(self.val), affected,
+                   {m: max(1, calls.get(m, 0)) for m in affected}, affected,
                    "linked", link_endpoints=(A, B))
+        if GROUP[na] == "list":
+            for tag in self.tags({a, b}):
+                self.ctx.count("list_links_" + tag)
+        if a[0] in self.recycled or b[0] in self.recycled:
+            self.ctx.count("links_to_recycled_address")
         self.ctx.count("links_made")
         if was_loose:
             self.ctx.count("relinks")
@@ -766,6 +966,9 @@ class World:
                 self.edges.discard(e)
         for n in [k for k in self.val if k[0] == uid]:
             del self.val[n]
+        del self.flavour[uid]
+        if had_any:
+            self.dead_addresses.add(id(o))
         raised = None
         try:
             del o
@@ -788,10 +991,27 @@ class World:
         self.ctx.sig("drop", min(orphaned, 3), min(len(had_any), 3))
 
     # -- counters / signatures --------------------------------------------------------
-    def account(self, opclass, n, src_ctx, reach, changed, really, raised):
+    def account(self, opclass, n, src_ctx, reach, changed, really, raised, fired=()):
         ctx = self.ctx
         calls = self.last_calls
         others = changed - {n}
+        src_tags = self.tags({n})
+        oth_tags = self.tags(others | (set(fired) - {n}))
+        if opclass.startswith("list-mutation") and really and others:
+            for tag in src_tags:
+                ctx.count("list_mutations_propagated_from_" + tag)
+            for tag in oth_tags:
+                ctx.count("list_mutations_propagated_into_" + tag)
+            if "dyn" in oth_tags and "dyn" not in src_tags:
+                ctx.count("list_mutations_dyn_partner_only")
+            if "dyn" in oth_tags and "dyn" in src_tags:
+                ctx.count("list_mutations_dyn_both_sides")
+        if opclass == "assign-list" and len(fired) > 1 and "always" in (src_tags | oth_tags):
+            ctx.count("always_notifying_assignments_propagated")
+            if not really:
+                ctx.count("equal_value_assignments_propagated")
+        if opclass == "assign-list" and not really and n in fired and self.outdeg(n):
+            ctx.count("equal_value_assignments_forwarded")
         if not really:
             ctx.count("noop_steps")
         if others:
@@ -819,7 +1039,8 @@ class World:
             ctx.sig(opclass, src_ctx, min(len(reach), 3), min(len(scc), 3),
                     any(m[1] != n[1] for m in reach), bool(self.upstream(n) - scc),
                     "raise" if raised else "chg" if really else "same",
-                    min(len(calls), 3), bool(CHAN), self.multipath(n))
+                    min(len(calls), 3), bool(CHAN), self.multipath(n),
+                    tuple(sorted(src_tags)), tuple(sorted(oth_tags)))
 
 
 # ---- history generation -------------------------------------------------------------------
@@ -831,20 +1052,37 @@ def init_values(rng):
         d["w"] = rng.randrange(4)
     if rng.random() < 0.5:
         d["s"] = rng.choice(STRS)
-    if rng.random() < 0.7:
+    if rng.random() < 0.45:
         d["xs"] = [rng.randrange(6) for _ in range(rng.randint(0, 4))]
-    if rng.random() < 0.3:
+    if rng.random() < 0.25:
         d["ys"] = [rng.randrange(6) for _ in range(rng.randint(0, 3))]
     return d
 
 
-def gen_value(rng, name, cur):
+def pick_flavour(rng, eq_only):
+    pool = [(f, k) for f, k in FLAVOUR_WEIGHTS if not (eq_only and FLAVOURS[f][3])]
+    x = rng.randrange(sum(k for _, k in pool))
+    for f, k in pool:
+        x -= k
+        if x < 0:
+            return f
+    return "plain"
+
+
+def fresh_op(rng, slot, eq_only):
+    # list traits whose every assignment notifies stay out of the redundant-path stratum:
+    # there the open finding (F32) would resurface under assignment keys as well
+    return ("fresh", slot, rng.random() < 0.5, init_values(rng), pick_flavour(rng, eq_only),
+            rng.random() < 0.5)
+
+
+def gen_value(rng, name, cur, p_equal=0.15):
     g = GROUP[name]
     if g == "int":
         return rng.randrange(4)
     if g == "str":
         return rng.choice(STRS)
-    if rng.random() < 0.15:
+    if rng.random() < p_equal:
         return list(cur)
     return [rng.randrange(6) for _ in range(rng.randint(0, 4))]
 
@@ -903,7 +1141,7 @@ def gen_unlink(rng, w):
 def gen_op(rng, w, step):
     free = [s for s in SLOTS if s not in w.obj]
     if len(w.obj) < 2:
-        return ("fresh", free[0], rng.random() < 0.5, init_values(rng))
+        return fresh_op(rng, free[0], w.allow_cycle)
     r = rng.random()
     if step < 3 and not w.edges:
         r = 0.0
@@ -918,15 +1156,27 @@ def gen_op(rng, w, step):
         # prefer dropping an object somebody is linked to
         linked_slots = sorted({w.slot_of[t[0]] for (s, t) in w.edges if s[0] != t[0]})
         slot = rng.choice(linked_slots) if linked_slots and rng.random() < 0.85 else rng.choice(sorted(w.obj))
+        uid = w.uid[slot]
+        partners = sorted((s, t) for (s, t) in w.edges if t[0] == uid and s[0] != uid)
+        if partners and rng.random() < 0.5:
+            # replace the collected partner at once by a fresh object of the same class
+            # (which usually lands at the same address) and link it the same way
+            s, t = rng.choice(partners)
+            w.pending = [("fresh", slot, rng.random() < 0.3, init_values(rng), w.flavour[uid],
+                          rng.random() < 0.5),
+                         ("link", w.slot_of[s[0]], s[1], slot, t[1], rng.random() < 0.7,
+                          rng.random() < 0.3)]
         return ("drop", slot)
     if free and r < (0.32 if w.allow_drop else 0.215):
-        return ("fresh", free[0], rng.random() < 0.5, init_values(rng))
+        return fresh_op(rng, free[0], w.allow_cycle)
     if r < 0.52:
         n = pick_node(rng, w, rng.choice(("int", "int", "str")))
         return ("set", w.slot_of[n[0]], n[1], gen_value(rng, n[1], w.val[n]))
     if r < 0.62:
         n = pick_node(rng, w, "list")
-        return ("set", w.slot_of[n[0]], n[1], gen_value(rng, n[1], w.val[n]))
+        # where every assignment notifies, the value already held must travel too
+        return ("set", w.slot_of[n[0]], n[1],
+                gen_value(rng, n[1], w.val[n], 0.4 if w.mode(n) == "always" else 0.15))
     n = pick_node(rng, w, "list")
     return ("mut", w.slot_of[n[0]], n[1], gen_mut(rng, w.val[n], w.allow_ext))
 
@@ -950,13 +1200,13 @@ def run_history(ctx, h, stratum, lens, nops):
     w = World(ctx, rng, stratum, lens)
     w.last_calls = {}
     nobj = 3 if (stratum == "cyclic" or rng.random() < 0.6) else 2
-    script = [("fresh", SLOTS[i], rng.random() < 0.5, init_values(rng)) for i in range(nobj)]
+    script = [fresh_op(rng, SLOTS[i], stratum == "cyclic") for i in range(nobj)]
     if stratum == "cyclic" and rng.random() < 0.7:
         script += cyclic_prelude(rng)
     step = 0
     try:
         while step < nops:
-            op = script.pop(0) if script else gen_op(rng, w, step)
+            op = script.pop(0) if script else w.pending.pop(0) if w.pending else gen_op(rng, w, step)
             w.trace.append(op)
             _unclamp()
             del LOG[:], CHAN[:], UNRAISABLE[:]
